@@ -1,4 +1,83 @@
-import CircuitModel.Basic
+/-
+  Props/C11.lean — live reconfiguration and diagnostics are safe under traffic (partial by nature: the Go memory
+  model, fairness and network-facing diagnostics are outside the model).
+  Obligations: (1) no data race = lock discipline on facts REGENERATED from the source + soundness of the discipline;
+  (2) no deadlock = acyclic lock order on regenerated edges + soundness; (3) per-setting atomicity = a decision that
+  loads its setting once sees the old or the new value under every schedule; (4) no panic with partial configs is
+  tied by the differential harness (diagnostics after partial SetConfigThreadSafe).
+-/
+import CircuitModel.LockLang
+import CircuitModel.Conc.Cfg
+import Generated.LockFacts
+import CircuitProofs.Lemmas.Lock
 namespace CM.Props.C11
-theorem placeholder : True := trivial
+open CM.Lock
+
+/-- THE REGENERATED OBLIGATIONS (facts re-extracted from today's Go source on every run): every non-atomic field of
+    every mutex-owning type is either never written after construction or protected by one common mutex, and the
+    acquired-while-holding relation between mutexes is acyclic -/
+theorem discipline_ok : disciplineOk CM.Generated.lockFacts = true := by decide
+theorem lock_order_ok : lockOrderOk CM.Generated.lockEdges = true := by decide
+
+/-! ### (1) soundness of the discipline -/
+
+/-- a thread, as far as locks go: the mutexes it currently holds -/
+structure Thread where
+  held : List Held
+
+/-- mutual exclusion of the mutexes: if two different threads hold the same mutex, both hold it shared -/
+def Exclusive (ts : List Thread) : Prop :=
+  ∀ (i j : Nat) (ti tj : Thread), ts[i]? = some ti → ts[j]? = some tj → i ≠ j →
+    ∀ h ∈ ti.held, ∀ h' ∈ tj.held, h.lock = h'.lock → h.write = false ∧ h'.write = false
+
+/-- a thread can be at an access only while holding (at least) what the analysis says is definitely held there -/
+def AtAccess (t : Thread) (a : Access) : Prop :=
+  ∀ h ∈ a.held, ∃ h' ∈ t.held, h'.lock = h.lock ∧ (h.write = true → h'.write = true)
+
+/-- NO DATA RACE: under the discipline, two different threads are never simultaneously at conflicting live accesses
+    (at least one of them a write) of the same field -/
+theorem lockset_sound (f : FieldFacts) (hok : fieldOk f = true) (ts : List Thread) (hex : Exclusive ts)
+    (i j : Nat) (ti tj : Thread) (hi : ts[i]? = some ti) (hj : ts[j]? = some tj) (hij : i ≠ j)
+    (a1 a2 : Access) (h1 : a1 ∈ live f) (h2 : a2 ∈ live f) (p1 : AtAccess ti a1) (p2 : AtAccess tj a2)
+    (hconf : a1.write = true ∨ a2.write = true) : False := by
+  sorry
+
+/-! ### (2) acyclic lock order ⇒ no deadlock -/
+
+/-- a blocked thread: holds some mutexes, waits for one; every (held, wanted) pair is an acquired-while-holding edge -/
+structure Blocked where
+  holds : List String
+  wants : String
+
+/-- if the checker accepts the edges, there is no deadlock: no non-empty set of blocked threads in which everybody
+    waits for a mutex held by somebody of the set -/
+theorem ordered_locks_no_deadlock (edges : List (String × String)) (hok : lockOrderOk edges = true)
+    (bs : List Blocked) (hne : bs ≠ [])
+    (hedges : ∀ b ∈ bs, ∀ h ∈ b.holds, (h, b.wants) ∈ edges)
+    (hheld : ∀ b ∈ bs, ∃ b' ∈ bs, b.wants ∈ b'.holds) : False := by
+  sorry
+
+/-! ### (3) per-setting atomicity -/
+open CM.Conc.Cfg in
+/-- a decision that loads its setting ONCE observes the old or the new value, under every schedule -/
+theorem old_or_new (old new : Int) (sched : List Actor) :
+    (run 1 (init old new) sched).loads = [] ∨ (run 1 (init old new) sched).loads = [old] ∨
+    (run 1 (init old new) sched).loads = [new] := by
+  sorry
+
+open CM.Conc.Cfg in
+/-- hence the throttle decision of a call racing a limit change is the decision under the old or under the new limit -/
+theorem throttle_old_or_new (old new count : Int) (sched : List Actor) (b : Bool)
+    (h : rejectOnce count (run 1 (init old new) sched).loads = some b) :
+    b = decide (old ≥ 0 ∧ count > old) ∨ b = decide (new ≥ 0 ∧ count > new) := by
+  sorry
+
+open CM.Conc.Cfg in
+/-- the legacy shape (two loads) is NOT atomic: limit 5 → -1 between the loads rejects a first call that both
+    configurations admit (the defect repaired in /repo; reproduced on the real code by the schedule harness) -/
+theorem double_read_witness :
+    rejectTwice 1 (run 2 (init 5 (-1)) [.load, .store, .load]).loads = some true ∧
+    decide ((5 : Int) ≥ 0 ∧ (1 : Int) > 5) = false ∧ decide ((-1 : Int) ≥ 0 ∧ (1 : Int) > -1) = false := by
+  sorry
+
 end CM.Props.C11
